@@ -55,6 +55,7 @@ class Contract:
         self.pure = False
         self.native = {}
         self.refines = []
+        self.local_types = {}       # declared types of local containers the engine cannot track (lists built in loops)
         self.use_abstract = set()  # callee method names resolved to the abstract contract of the base class
         self.assumes = []          # (text, expr): assumed at entry, listed in the evidence (never silently)
         self.for_class_obj = None
@@ -397,6 +398,9 @@ class Registry:
                 elif n == 'native':
                     for k in call.keywords:
                         c.native[k.arg] = k.value
+                elif n == 'local':
+                    for k in call.keywords:
+                        c.local_types[k.arg] = k.value
                 elif n == 'use_abstract':
                     for x in call.args:
                         c.use_abstract.add(ast.literal_eval(x))
